@@ -11,6 +11,7 @@ Kinds:
   WBL  list of WB                      WS   wire text            WSL  list of WS (wire-determined length)
   WO   arbitrary unpickled object      WOL  list/tuple of WO (isinstance-refined)
   F?   float that may be nan/inf       FF   finite float         INT  int
+  N?   a number as it came (isinstance-refined, not converted): an int of any size or a float that may be nan/inf
   TR   trusted (configuration, constants, self attributes)      EXC  a caught exception object
   ('T', k0, k1, ...) tuple of known length
 """
@@ -31,14 +32,14 @@ PARENT = {
   'error': 'Exception', 'Exception': 'BaseException', 'TOP': 'Exception',
 }
 
-WIRE = {'WB', 'WBM', 'WBL', 'WS', 'WSL', 'WO', 'WOL', 'F?', 'WSB'}
+WIRE = {'WB', 'WBM', 'WBL', 'WS', 'WSL', 'WO', 'WOL', 'F?', 'WSB', 'N?'}
 STR_TOTAL = {'strip', 'lstrip', 'rstrip', 'lower', 'upper', 'title', 'startswith', 'endswith', 'find', 'rfind', 'replace',
              'isdigit', 'isalpha', 'isalnum', 'isspace', 'count', 'partition', 'rpartition', 'casefold', 'swapcase',
              'expandtabs', 'zfill', 'center', 'ljust', 'rjust', 'capitalize', 'isnumeric', 'isdecimal', 'islower', 'isupper'}
 STR_TO_LIST = {'split', 'rsplit', 'splitlines'}
 TRUSTED_MODULES = ('carbon.log', 'carbon.instrumentation')
 TRUSTED_CALL_PREFIXES = ('log.', 'instrumentation.', 'time.', 'state.instrumentation.')
-TRUSTED_SELF_METHODS = {'resetTimeout', 'setTimeout', 'getPeerName'}
+TRUSTED_SELF_METHODS = {'resetTimeout', 'setTimeout', 'getPeerName', 'sendLine', 'sendString'}
 CLOSERS = {'loseConnection', 'abortConnection', 'stopListening', 'stopProducing'}
 
 
@@ -152,6 +153,8 @@ class Effects(object):
     self.repo = cx.repo
     self.T = cx.types
     self.max_depth = max_depth
+    self.uninit_attrs = set()  # attributes of the receiver object that may be unset when the entry point runs
+    self.dispatches = []       # (fn, call, kinds) of the calls to <receiver>.metricReceived(metric, datapoint)
     self.hazards = []          # (fn, node, message): may-raise operation on a whole multi-item payload
     self.loop_problems = []    # (fn, node, message)
     self.closers = []          # (fn, call)
@@ -440,8 +443,28 @@ class Effects(object):
         no[t.id] = 'NONE'
       return
     if isinstance(t, ast.Call) and isinstance(t.func, ast.Name) and t.func.id == 'isinstance' and len(t.args) == 2 and \
+       isinstance(t.args[0], ast.Subscript) and isinstance(t.args[0].value, ast.Name) and isinstance(t.args[0].slice, ast.Constant) and \
+       isinstance(t.args[0].slice.value, int):
+      # isinstance(x[i], float) on a tuple of known shape refines component i
+      v, i = t.args[0].value.id, t.args[0].slice.value
+      cur = e_true.get(v, e_false.get(v))
+      ty = t.args[1]
+      names = [unparse(e) for e in ty.elts] if isinstance(ty, ast.Tuple) else [unparse(ty)]
+      if isinstance(cur, tuple) and cur[0] == 'T' and 0 <= i < len(cur) - 1 and cur[1 + i] == 'N?' and set(names) <= {'float'}:
+        yes, no = (e_false, e_true) if neg else (e_true, e_false)
+        yes[v] = cur[:1 + i] + ('F?',) + cur[2 + i:]
+        no[v] = cur[:1 + i] + ('INT',) + cur[2 + i:]
+      return
+    if isinstance(t, ast.Call) and isinstance(t.func, ast.Name) and t.func.id == 'isinstance' and len(t.args) == 2 and \
        isinstance(t.args[0], ast.Name):
       v = t.args[0].id
+      cur0 = e_true.get(v, e_false.get(v))
+      ty0 = t.args[1]
+      names0 = [unparse(e) for e in ty0.elts] if isinstance(ty0, ast.Tuple) else [unparse(ty0)]
+      if cur0 == 'N?' and set(names0) <= {'float'}:
+        yes, no = (e_false, e_true) if neg else (e_true, e_false)
+        yes[v], no[v] = 'F?', 'INT'
+        return
       ty = t.args[1]
       names = [unparse(e) for e in ty.elts] if isinstance(ty, ast.Tuple) else [unparse(ty)]
       yes, no = (e_false, e_true) if neg else (e_true, e_false)
@@ -456,9 +479,12 @@ class Effects(object):
         elif set(names) <= {'list', 'tuple'}:
           if cur == 'WO':
             yes[v] = 'WOL'
-        elif set(names) <= {'int', 'float', 'six.integer_types', 'long'}:
+        elif set(names) <= {'float'}:
           if cur == 'WO':
             yes[v] = 'F?'
+        elif set(names) <= {'int', 'float', 'six.integer_types', 'long', 'numbers.Number', 'numbers.Real', 'Number'}:
+          if cur == 'WO':
+            yes[v] = 'N?'
 
   # ------------------------------------------------------------ binding
   def bind(self, tgt, kind, env, R, at, fn):
@@ -532,6 +558,10 @@ class Effects(object):
       return env.get(n.id, 'TR'), R
     if isinstance(n, ast.Attribute):
       base = sub(n.value)
+      if isinstance(n.value, ast.Name) and fn.params and n.value.id == fn.params[0] and n.attr in self.uninit_attrs and \
+         isinstance(n.ctx, ast.Load):
+        R.append(Raised('AttributeError', fn, n, 'self.%s, which is only ever set by connectionMade() - never called on this '
+                        'kind of receiver' % n.attr))
       if base in ('WO', 'WOL'):
         R.append(Raised('AttributeError', fn, n, 'attribute .%s of an arbitrary unpickled object' % n.attr))
         return 'WO', R
@@ -706,7 +736,7 @@ class Effects(object):
             continue
           if k in ('WS', 'WB', 'WO', 'WOL', 'WSL', 'WBL', 'EXC') or isinstance(k, tuple):
             R.append(Raised('TypeError', fn, at, '%%%s conversion of non-numeric wire data' % sp))
-          elif k == 'F?' and sp in 'dioxXc':
+          elif k in ('F?', 'N?') and sp in 'dioxXc':
             R.append(Raised('ValueError', fn, at, '%%%s of a float that may be NaN' % sp))
             R.append(Raised('OverflowError', fn, at, '%%%s of a float that may be infinite' % sp))
       elif any(is_wire(a) for a in args):
@@ -720,7 +750,7 @@ class Effects(object):
       if 'WB' in (l, r) or 'WO' in (l, r) or 'WOL' in (l, r) or ('WS' in (l, r) and {l, r} & {'INT', 'FF', 'F?'}):
         R.append(Raised('TypeError', fn, at, 'addition of incompatible wire values (%s + %s)' % (l, r)))
         return 'WO', R
-    num = {'INT', 'FF', 'F?', 'TR'}
+    num = {'INT', 'FF', 'F?', 'TR', 'N?'}
     if l in num and r in num:
       if isinstance(n.op, (ast.Div, ast.FloorDiv, ast.Mod)):
         if r in ('INT', 'FF', 'F?'):
@@ -729,6 +759,8 @@ class Effects(object):
           pass
       if isinstance(n.op, ast.Pow) and (is_wire(l) or is_wire(r)):
         R.append(Raised('OverflowError', fn, at, 'power with wire-derived operands'))
+      if 'N?' in (l, r):
+        return 'N?', R
       if 'F?' in (l, r):
         return 'F?', R
       if 'FF' in (l, r):
@@ -780,9 +812,12 @@ class Effects(object):
           for e in ('ValueError', 'TypeError', 'OverflowError'):
             R.append(Raised(e, fn, n, 'float(<arbitrary unpickled object>)'))
           return 'F?', R
+        if a0 == 'N?':
+          R.append(Raised('OverflowError', fn, n, 'float(<int too large for a float>)'))
+          return 'F?', R
         return (a0 if a0 in ('F?', 'FF') else 'FF'), R
       if b in ('int', 'round'):
-        if a0 == 'F?':
+        if a0 in ('F?', 'N?'):
           R.append(Raised('ValueError', fn, n, '%s(<float that may be NaN>)' % b))
           R.append(Raised('OverflowError', fn, n, '%s(<float that may be infinite>)' % b))
         elif a0 in ('WS', 'WB'):
@@ -913,6 +948,15 @@ class Effects(object):
       if a0 in ('WS', 'WB', 'WSB', 'WO', 'WOL', 'WSL', 'WBL') or isinstance(a0, tuple):
         R.append(Raised('TypeError', fn, n, '%s(<non-numeric wire value>)' % name))
       return 'TR', R
+    # ---- serialisers: total on plain data (text, numbers, tuples/lists of those)
+    if name.split('.')[-1] == 'dumps' and name.split('.')[0] in ('pickle', 'cPickle', 'json', 'marshal'):
+      def plain(k):
+        if isinstance(k, tuple):
+          return all(plain(x) for x in k[1:])
+        return k in ('WS', 'WB', 'WSB', 'FF', 'F?', 'N?', 'INT', 'TR', 'WSL', 'WBL')
+      if not all(plain(a) for a in args):
+        R.append(Raised('TOP', fn, n, '%s of an arbitrary object' % name))
+      return 'WB', R
     # ---- deserialisers and other opaque externals fed with wire data
     last = name.split('.')[-1]
     if last in ('loads', 'load', 'FromString', 'ParseFromString') and tainted:
@@ -931,6 +975,8 @@ class Effects(object):
           if not (isinstance(f, ast.Attribute) and isinstance(f.value, ast.Name) and via == 'method' and
                   self._is_class_ref(f.value, fn)):
             kinds = ['TR'] + kinds
+        if callee.name == 'metricReceived':
+          self.dispatches.append((fn, n, list(kinds)))
         R.extend(self._via(self.analyse(callee, kinds), fn, n))
         rks.append('TR' if via == 'ctor' else self.return_kind(callee, kinds))
       if tainted and any(k is None for k in rks):
